@@ -153,6 +153,9 @@ class BlockChain(object):
         def iterate() -> Generator[tuple[Any, Any], None, None]:
             for header in header_iter:
                 h = header.hash()
+                if h == self.parent_hash:
+                    # the block at the lock point is already part of the locked chain
+                    continue
                 self.weight_lookup[h] = header.difficulty
                 self.unlocked_block_storage[h] = header
                 yield h, header.previous_block_hash
